@@ -45,14 +45,13 @@ pub fn child_main(arg: &str) -> i32 {
 fn run_library_child(cwd: &Path, base: &str, shell: &str, mode: &str) -> String {
     let arg = json!({"base": base, "shell": shell, "inputs": ["."], "mode": mode}).to_string();
     let exe = std::env::current_exe().unwrap();
-    let o = std::process::Command::new(exe)
-        .arg("conf-child")
-        .arg(arg)
-        .current_dir(cwd)
-        .env_remove("TXTPP_FILE")
-        .output()
-        .expect("spawn conf child");
-    String::from_utf8_lossy(&o.stdout).lines().next().unwrap_or("NoVerdict").to_string()
+    let mut c = std::process::Command::new(exe);
+    c.arg("conf-child").arg(arg).current_dir(cwd).env_remove("TXTPP_FILE").stdin(std::process::Stdio::null());
+    let (_st, out, to) = output_with_timeout(&mut c, 40.0);
+    if to {
+        return "Timeout".to_string();
+    }
+    String::from_utf8_lossy(&out).lines().next().unwrap_or("NoVerdict").to_string()
 }
 
 struct Layout {
